@@ -55,6 +55,97 @@ def oracle(exp, a):
     return None
 
 
+HEXD = set(b"0123456789abcdefABCDEF")
+TEXT = set(range(0x20, 0x7f)) | {9}
+
+
+def ref_chunked(total: bytes):
+    """Strict reference reading of a chunked encoding, written from the C06 statement.  Returns
+       ("valid", payload) | ("trunc", payload_so_far, after_last_chunk_line) | ("malformed", payload_so_far) | ("unclear",)
+    `unclear`: outside what the statement pins down (non-ASCII extension / trailer bytes, bare LF …) - only the model is compared."""
+    pos, payload = 0, b""
+    while True:
+        eol = total.find(b"\r\n", pos)
+        line = total[pos:] if eol < 0 else total[pos:eol]
+        # a bare LF or a stray CR inside a framing line: whether that terminates the line is not pinned down by the statement
+        core = line[:-1] if (eol < 0 and line.endswith(b"\r")) else line
+        if b"\n" in core or b"\r" in core:
+            return ("unclear",)
+        semi = line.find(b";")
+        sizef = line if semi < 0 else line[:semi]
+        ext = b"" if semi < 0 else line[semi:]
+        if eol < 0:
+            # the size line is not terminated: cut short unless what is there can no longer become a size line
+            body_ = sizef[:-1] if (semi < 0 and sizef.endswith(b"\r")) else sizef
+            if any(c not in HEXD for c in body_):
+                return ("malformed", payload) if body_ and body_[0] not in HEXD else ("unclear",)
+            if any(c not in TEXT and c != 13 for c in ext):
+                return ("unclear",)
+            return ("trunc", payload, False)
+        if not sizef or any(c not in HEXD for c in sizef):
+            return ("malformed", payload)
+        if any(c not in TEXT for c in ext):
+            return ("unclear",)
+        size = int(sizef, 16)
+        pos = eol + 2
+        if size >= 2 ** 64:
+            return ("malformed", payload)
+        if size == 0:
+            while True:
+                eol = total.find(b"\r\n", pos)
+                if eol < 0:
+                    return ("trunc", payload, True) if all(c in TEXT or c == 13 for c in total[pos:]) else ("unclear",)
+                if eol == pos:
+                    return ("valid", payload)
+                if any(c not in TEXT for c in total[pos:eol]):
+                    return ("unclear",)      # (includes a bare LF / stray CR inside a trailer line)
+                pos = eol + 2
+        rest = total[pos:]
+        if len(rest) < size:
+            return ("trunc", payload + rest, False)
+        data = rest[:size]
+        after = rest[size:size + 2]
+        if after == b"\r\n":
+            payload += data
+            pos += size + 2
+            continue
+        if b"\r\n".startswith(after):
+            return ("trunc", payload + data, False)
+        return ("malformed", payload + data)
+
+
+def oracle_fuzz(case, a):
+    """the C06 statement applied to an arbitrary stream: decided only where the strict reference reading is clear"""
+    _, d = kv("X " + case.split(" ", 1)[1])
+    r = parse_ans(a)
+    if r is None:
+        return "body reader scenario failed: " + a[:50]
+    total = unhex(d["lo"]) + unhex(d["st"])
+    api = d["api"]
+    if d["kind"].startswith("fixed:"):
+        n = int(d["kind"][6:])
+        cls = ("valid", total[:n]) if len(total) >= n else ("trunc", total, False)
+    elif d["kind"] == "chunked":
+        cls = ref_chunked(total)
+    else:
+        return None
+    if cls[0] == "unclear":
+        return None
+    if cls[0] == "valid":
+        if r["end"] != "END":
+            return "a valid encoding was reported as an error"
+        if api != "drain" and r["data"] != cls[1]:
+            return "valid encoding: delivered %d bytes, expected the %d-byte payload" % (len(r["data"]), len(cls[1]))
+        return None
+    if api != "drain" and not cls[1].startswith(r["data"]):
+        return "cut short / malformed encoding: delivered bytes are not a prefix of the payload"
+    if cls[0] == "malformed" and r["end"] != "ERR":
+        return "malformed chunk framing was not reported as an error"
+    if cls[0] == "trunc" and r["end"] != "ERR" and not (cls[2] and (api == "drain" or r["data"] == cls[1])):
+        return "an encoding cut short ended cleanly"
+    return None
+
+
 def run(o, ctx, tier, seed, replay=None):
     t = "thorough" if tier in ("thorough", "search") else "quick"
     if replay is not None:
@@ -71,6 +162,14 @@ def run(o, ctx, tier, seed, replay=None):
         if why and len(o.violations) < 40:
             o.violations.append({"case": c, "impl": a[:200], "why": why})
 
+
+    # streams kept by the coverage- and behaviour-guided generator: model comparison + the statement where the strict reading is clear
+    fz = fuzz_cases(o, ctx, "body", t, seed)
+    fimpl, _ = diff_run(o, ctx, fz, nontrivial=lambda c, a: True, tags=lambda c, a: "fuzz:" + c.split()[1].split(":")[0] + ":" + (a.split()[2] if len(a.split()) > 2 else "?"))
+    for c, a in zip(fz, fimpl):
+        why = oracle_fuzz(c, a)
+        if why and len(o.violations) < 40:
+            o.violations.append({"case": c, "impl": a[:200], "why": why + " (guided-generator stream)"})
 
     # transient errors: raw read number k fails once with Interrupted and the caller simply calls again. Nothing may change:
     # same bytes, same outcome, same number of bytes pulled as in the undisturbed run — i.e. as the (error-free) model says
